@@ -20,7 +20,8 @@ GEN = ['Alias']
 THEOREMS = [
     'C03.once_left_to_right', 'C03.traceOf_shape', 'C03.and_or_lazy', 'C03.and_or_operand', 'C03.if_lazy',
     'C03.args_before_lookup', 'C03.undefined_keeps_effects', 'C03.keywords_win',
-    'C03.binop_table', 'C03.binop_numeric_partial', 'C03.ratPowNat_eq', 'C03.relops_are_sign_tests', 'C03.relops_consistent',
+    'C03.binop_table', 'C03.stringify_scalars', 'C03.binop_numeric_partial', 'C03.ratPowNat_eq', 'C03.relops_are_sign_tests',
+    'C03.relops_consistent', 'C03.compare_scalars',
     'C03.typeName_mem', 'C03.unsupported_is_null', 'C03.unsupported_count', 'C03.bool_is_not_number', 'C03.neg_table',
     'C03.truthy_table',
     'C03.alias_table_documented', 'C03.alias_resolves_to_target', 'C03.alias_lookup', 'C03.binding_wins_over_builtin',
